@@ -35,6 +35,41 @@ type Case struct {
 	SnapCount int     `json:"snap_count"` // 0 = the default (10000): no snapshot is ever taken
 	CatchUp   int     `json:"catch_up"`
 	Phases    []Phase `json:"phases"`
+	// CrashPoint (hook H4), if set, makes the nodes in CrashNodes kill themselves the CrashNth time
+	// they pass that point of Ready handling during the first phase (instead of being killed from outside)
+	CrashPoint string `json:"crash_point,omitempty"`
+	CrashNth   int    `json:"crash_nth,omitempty"`
+	CrashNodes []int  `json:"crash_nodes,omitempty"`
+}
+
+var crashPoints = []string{"ready-start", "before-wal-save", "after-wal-save", "after-append", "after-send", "after-publish", "before-advance",
+	"before-save-snap", "after-save-snap", "between-snap-file-and-wal-record"}
+
+// genPointCase: one phase of writers while the chosen nodes carry a self-kill at a named point.
+func genPointCase(t *rapid.T) Case {
+	c := Case{CrashPoint: rapid.SampledFrom(crashPoints).Draw(t, "point"), CrashNth: rapid.SampledFrom([]int{1, 2, 3, 5, 9, 17}).Draw(t, "nth")}
+	if strings.Contains(c.CrashPoint, "snap") {
+		c.SnapCount, c.CatchUp = 5, 2
+		c.CrashNth = rapid.SampledFrom([]int{1, 2}).Draw(t, "snapnth")
+	} else if rapid.Bool().Draw(t, "withsnap") {
+		c.SnapCount, c.CatchUp = 5, 2
+	}
+	switch rapid.IntRange(0, 2).Draw(t, "who") {
+	case 0:
+		c.CrashNodes = []int{1, 2, 3}
+	case 1:
+		c.CrashNodes = []int{1 + rapid.IntRange(0, 2).Draw(t, "one")}
+	default:
+		a := 1 + rapid.IntRange(0, 2).Draw(t, "a")
+		c.CrashNodes = []int{a, 1 + a%3}
+	}
+	p := Phase{PerWriter: rapid.SampledFrom([]int{10, 25}).Draw(t, "per"), Kinds: "all", Kill: c.CrashNodes, Restart: rapid.Permutation(c.CrashNodes).Draw(t, "restart")}
+	nw := rapid.IntRange(2, 4).Draw(t, "writers")
+	for w := 0; w < nw; w++ {
+		p.Writers = append(p.Writers, 1+rapid.IntRange(0, 2).Draw(t, "wnode"))
+	}
+	c.Phases = []Phase{p}
+	return c
 }
 
 func genCase(t *rapid.T) Case {
@@ -107,6 +142,19 @@ func execCase(c Case) kit.Outcome {
 	}
 	defer cl.Stop()
 	o := kit.Outcome{Labels: []string{fmt.Sprintf("snapcount:%d", c.SnapCount)}}
+	if c.CrashPoint != "" {
+		// re-start the targeted nodes with the self-kill armed (counts start at their restart)
+		o.Labels = append(o.Labels, "crashpoint:"+c.CrashPoint)
+		for _, n := range c.CrashNodes {
+			cl.Kill(n)
+			cl.SetNodeEnv(n, []string{fmt.Sprintf("VERIF_CRASH=%s:%d", c.CrashPoint, c.CrashNth)})
+			if err := cl.StartNode(n); err != nil {
+				return kit.Outcome{Fail: "infrastructure: " + err.Error()}
+			}
+		}
+		// the armed nodes may die while becoming ready again; wait only for the cluster as a whole
+		time.Sleep(300 * time.Millisecond)
+	}
 	lg := &ledger{strs: map[string]write{}, list: map[int][]write{}, hash: map[string]write{}, set: map[string]write{}}
 	seq := 0
 	for pi, p := range c.Phases {
@@ -188,7 +236,18 @@ func execCase(c Case) kit.Outcome {
 				cl.Kill(n)
 			}
 		}
-		if p.DuringLoad {
+		if c.CrashPoint != "" && pi == 0 {
+			wg.Wait()
+			died := 0
+			for _, n := range p.Kill {
+				if !cl.Alive(n) {
+					died++
+				}
+				cl.SetNodeEnv(n, nil) // the restart runs without the self-kill
+			}
+			kit.C.Label(fmt.Sprintf("crashpoint-nodes-that-died:%d-of-%d", died, len(p.Kill)), 1)
+			kill()
+		} else if p.DuringLoad {
 			time.Sleep(time.Duration(p.KillAtMs) * time.Millisecond)
 			kill()
 			wg.Wait()
@@ -373,6 +432,11 @@ func verify(cl *srv.Cluster, lg *ledger) string {
 
 func TestCrashRestart(t *testing.T) {
 	kit.Check(t, kit.Spec[Case]{Sub: "crash", Quick: 1, Thorough: 10, Gen: genCase, Exec: execCase, NoShrink: !kit.Thorough()})
+}
+
+// TestCrashPoints: deterministic crash points inside Ready handling and snapshotting (hook H4).
+func TestCrashPoints(t *testing.T) {
+	kit.Check(t, kit.Spec[Case]{Sub: "crash", Quick: 2, Thorough: 20, Gen: genPointCase, Exec: execCase, NoShrink: !kit.Thorough()})
 }
 
 // witnesses of the recorded snapshot findings are plain cases with a snapshot threshold
